@@ -70,7 +70,8 @@ def gen(seed, tier):
             elif r < 0.35:
                 # the body only touches the offered sub-fiber: creates an element below it, writes nothing
                 acts.append([p, "touch", rng.randrange(0, n + 1)])
-        case = {"prop": PROP, "d": d, "dflt": dflt, "z": z, "a": a, "acts": acts, "kind": "owned"}
+        case = {"prop": PROP, "d": d, "dflt": dflt, "z": z, "a": a, "acts": acts, "kind": "owned",
+                "fdflt": rng.random() < 0.15}
         if rng.random() < 0.2:
             # the source's top rank is declared uncompressed: the loop is offered every coordinate of its shape
             case.update({"fmtA": "U", "shapeA": n})
@@ -115,6 +116,8 @@ def _ranks(t):
 def run(case):
     ft = H.ft()
     d, dflt = case["d"], case["dflt"]
+    if case.get("fdflt"):
+        dflt = float(dflt)
     acts = {tuple(p): (code, v) for p, code, v in case["acts"]}
     z = H.build_fiber(case["z"], d + 1, dflt)
     a = H.build_fiber(case["a"], d + 1, dflt)
